@@ -131,13 +131,14 @@ Theorem C07_relay_insert_option82_total :
   forall pkt opt82 policy, is_crash (insert_option82 pkt opt82 policy) = false.
 Proof. exact insert_option82_total. Qed.
 Print Assumptions C07_relay_insert_option82_total.
-(* every option-82 range the walk records lies inside the packet, they do not overlap, and their total size is
-   at most the End offset: `endIdx -= r[1]-r[0]` cannot go negative and removeRanges never slices out of range *)
+(* every option-82 range the walk records lies inside the packet InsertOption82 works on (the packet cut at a trailing
+   fragment, since 703d203), they do not overlap, and their total size is at most the End offset, which is inside that packet:
+   `endIdx -= r[1]-r[0]` cannot go negative and removeRanges never slices out of range *)
 Theorem C07_relay_option82_ranges_inside :
   forall pkt r, o82_scan (S (length pkt)) 240 pkt [] = Ok r -> 240 <= lenN pkt ->
-  ranges_ok (lenN pkt) (snd r) /\
-  ranges_total (snd r) <= match fst r with Some e => e | None => lenN pkt end /\
-  match fst r with Some e => e | None => lenN pkt end <= lenN pkt.
+  cut_len pkt (fst r) <= lenN pkt /\
+  ranges_ok (cut_len pkt (fst r)) (snd r) /\
+  ranges_total (snd r) <= end_off pkt (fst r) /\ end_off pkt (fst r) <= cut_len pkt (fst r).
 Proof. exact o82_scan_ranges. Qed.
 Print Assumptions C07_relay_option82_ranges_inside.
 Theorem C07_relay_strip_option82_total : forall pkt, is_crash (strip_option82 pkt) = false.
